@@ -90,7 +90,7 @@ def job_parse(ses, proto, prelude, which):
         if isinstance(r, Panic):
             if upper_obligation(ses, '%s: no panic (%s)' % (tag, r.msg[:50]), list(s2.pc)): ses.violation(tag + ' panics: ' + r.msg, {}, {'kind': 'c15'})
             continue
-        if len(core) != 1: ses.violation('%s makes %d core calls' % (tag, len(core)), {}, {'kind': 'c16'}); continue
+        if len(core) != 1: ses.violation('%s makes %d core calls' % (tag, len(core)), {}, {'kind': 'c16', 'proto': proto}); continue
         c = core[0]
         wantA = sp.A if p['assertion'] else StringVal('')
         if upper_obligation(ses, '%s: token, key, the parser\'s footer and implicit assertion reach the matching core entry point unchanged' % tag,
@@ -100,7 +100,7 @@ def job_parse(ses, proto, prelude, which):
         plain = um.core_plain(IntVal(um.PROTO_ID[proto]), tok, Kb, sp.F, wantA)
         rejected = any(a.eq(Not(acc)) for a in s2.pc)
         if rejected:
-            if calls: ses.violation('%s: a validator runs although the token did not authenticate' % tag, {}, {'kind': 'c16'})
+            if calls: ses.violation('%s: a validator runs although the token did not authenticate' % tag, {}, {'kind': 'c16', 'proto': proto})
             if not (is_err(r) and 'CipherError' in (r[3][0][1], r[3][0][2])): ses.violation('%s: a core error is not returned as CipherError (%s)' % (tag, describe(r)), {}, {'kind': 'c16'})
         else:
             parses = [e for e in s2.log if e[0] == 'json_parse']
